@@ -175,6 +175,20 @@ CLAIMED = {
             'struct model. Bounds: <= 2 inner messages, body <= 40 + tail <= 24 bytes (every byte the parser reads is symbolic), one '
             'pending datagram; genuine datagram of one message <= 200 bytes. Identical copies are replays (C04). The server gate is C10/C11.',
             'DESIGN.md §6 C01'),
+    'C03': ('One _build_packet / ServerClientConnection.update step from an arbitrary state (clocks, sequence number, windows, '
+            'status, queued messages of any type and retry mode) proves the rate cap (a packet only when the send interval has '
+            'elapsed), the exact ring successor, last_send_time := t, and that header bytes 0..11 are (direction magic, int(t), seq, '
+            'ack) with the magic a function of the endpoint role only. An arithmetic lemma, posed with the send interval read from '
+            'the instrumented object on every run, shows that packets at least wraps*65535 intervals apart have different whole '
+            'seconds, and that the ring has no shorter period. Every emission path (client _encode_packet, UdpServerThread.send, '
+            'TwistedServer.sendPacketsUnsafe) is proven to call AES-GCM exactly once with (session key, hdr[0:12], hdr[0:20], whole '
+            'message area) for every packet type but the signed server hello, with output header ++ ciphertext and no payload blob '
+            'outside the ciphertext; send() on a not-yet-connected connection queues nothing, so no application message can share a '
+            'clear server-hello packet.',
+            'The induction over a send history (gaps add up) is the paper step in the evidence explanation. Trusted: sx engine, ideal '
+            'AEAD bookkeeping, exact-real non-decreasing clock below 2^32 s. Outside: clocks that step backwards, float rounding, '
+            'peers that hold the key and deviate from the code, reuse of one key across sessions.',
+            'DESIGN.md §6 C03'),
 }
 
 NOT_YET = 'check not built yet in this round (planned: see DESIGN.md §6); not claimed'
